@@ -127,6 +127,10 @@ pub struct Interp {
     alloc_at_begin: Option<Vec<(u32, u32)>>,
     pub aborts_checked: u64,
     pub failed_commit_model: Option<DbModel>,
+    /// a panic unwound through a write transaction: leaked pages are legitimate until reopen
+    pub leaked_by_panic: bool,
+    /// index in `cps` of the last commit point known to be durable
+    pub durable_cp: usize,
 }
 
 pub type StepResult = Result<String, String>;
@@ -222,6 +226,8 @@ impl Interp {
             alloc_at_begin: None,
             aborts_checked: 0,
             failed_commit_model: None,
+            leaked_by_panic: false,
+            durable_cp: 0,
         })
     }
 
@@ -377,6 +383,7 @@ impl Interp {
             Op::Commit => self.op_commit(),
             Op::Abort => self.op_abort(false),
             Op::DropTxn => self.op_abort(true),
+            Op::PanicDrop => self.op_panic_drop(),
             Op::Open { slot, name, spec } => self.op_open(*slot, name, *spec),
             Op::Close { slot } => {
                 if self.cur_model.as_ref().map(|c| c.slot == *slot as usize).unwrap_or(false) {
@@ -715,6 +722,9 @@ impl Interp {
         self.psave_info = w.psave_info.clone();
         self.committed = newm.clone();
         self.cps.push(newm);
+        if durable {
+            self.durable_cp = self.cps.len() - 1;
+        }
         self.after_txn_boundary("commit")?;
         Ok(if durable { "committed-durable" } else { "committed-nondurable" }.into())
     }
@@ -728,7 +738,7 @@ impl Interp {
     /// C05: no storage space remains consumed by the abandoned work, nothing still needed was
     /// released
     fn check_abort_equality(&mut self, what: &str) -> Result<(), String> {
-        if !self.abort_set_equality || self.storage_failed {
+        if !self.abort_set_equality || self.storage_failed || self.leaked_by_panic {
             return Ok(());
         }
         let Some(before) = self.alloc_at_begin.take() else { return Ok(()) };
@@ -767,12 +777,43 @@ impl Interp {
         Ok("aborted".into())
     }
 
+    fn op_panic_drop(&mut self) -> StepResult {
+        if self.wt.is_none() {
+            return Err("harness: PanicDrop outside a transaction".into());
+        }
+        let cur = self.cur.take();
+        self.cur_model = None;
+        let tabs = std::mem::replace(&mut self.tabs, [None, None]);
+        let wt = self.wt.take().unwrap();
+        let w = self.working.take().unwrap();
+        let was_quiet = crate::par::is_quiet();
+        crate::par::set_quiet(true);
+        let r = std::panic::catch_unwind(std::panic::AssertUnwindSafe(move || {
+            let _wt = wt;
+            let _tabs = tabs;
+            let _cur = cur;
+            panic!("harness: application panic with a live write transaction");
+        }));
+        crate::par::set_quiet(was_quiet);
+        let _ = crate::par::take_last_panic();
+        if r.is_ok() {
+            return Err("harness: the panic did not happen".into());
+        }
+        self.rollback_model(&w);
+        self.alloc_at_begin = None;
+        // redb cannot roll back while unwinding: the transaction's pages may stay allocated until
+        // the next open repairs the allocator state; contents must be the pre-transaction ones
+        self.leaked_by_panic = true;
+        self.verify_committed().map_err(|e| format!("after a panic unwound through a write transaction: {e}"))?;
+        Ok("panicked".into())
+    }
+
     /// oracle evaluated at every transaction boundary
     fn after_txn_boundary(&mut self, what: &str) -> Result<(), String> {
         if self.storage_failed {
             return Ok(());
         }
-        if self.accounting {
+        if self.accounting && !self.leaked_by_panic {
             if let Some(db) = self.db.as_ref() {
                 crate::account::check(db).map_err(|e| format!("page accounting after {what}: {e}"))?;
                 if self.readers.iter().any(|r| r.is_some()) {
@@ -1475,9 +1516,15 @@ impl Interp {
         if !cv.is_empty() {
             return Err(format!("storage backend contract violated at close: {}", cv.join("; ")));
         }
-        // a clean close makes the last commit durable
-        self.mark(LogOp::Acked(self.cps.len() - 1, true));
-        self.last_commit_durable = true;
+        // a clean close makes the last commit durable -- unless a panic leaked pages earlier: then
+        // redb deliberately records no clean shutdown (the next open repairs) and commits issued
+        // with Durability::None since the last durable commit may be gone
+        let leaked = self.leaked_by_panic;
+        if !leaked {
+            self.mark(LogOp::Acked(self.cps.len() - 1, true));
+            self.last_commit_durable = true;
+            self.durable_cp = self.cps.len() - 1;
+        }
         let image = self.backend.image();
         let record = self.backend.lock().record;
         let log = self.backend.take_log();
@@ -1493,8 +1540,29 @@ impl Interp {
         self.db = Some(db);
         // ephemeral savepoints died with the old instance
         self.invalid_ranks.clear();
+        // the open after a leak must have repaired the allocator state
+        self.leaked_by_panic = false;
         let d = dump::dump(self.db.as_ref().unwrap(), Some(&self.committed.tables))?;
-        if !d.matches(&self.committed) {
+        if leaked {
+            let found = (self.durable_cp..self.cps.len()).rev().find(|i| d.matches(&self.cps[*i]));
+            match found {
+                Some(i) => {
+                    self.committed = self.cps[i].clone();
+                    self.cps.push(self.committed.clone());
+                    self.durable_cp = self.cps.len() - 1;
+                    self.last_commit_durable = true;
+                    // ranks of persistent savepoints that vanished with lost commits
+                    let ids: Vec<u64> = self.committed.psave.keys().copied().collect();
+                    self.psave_info.retain(|id, _| ids.contains(id));
+                }
+                None => {
+                    return Err(format!(
+                        "after a close that followed a leaked (panicked) transaction the reopened contents equal no commit point at or after the last durable one: db has {}",
+                        d.summary()
+                    ));
+                }
+            }
+        } else if !d.matches(&self.committed) {
             return Err(format!(
                 "contents changed across clean close + reopen: db has {} ; model has {}",
                 d.summary(),
@@ -1520,7 +1588,10 @@ impl Interp {
         };
         let db = self.db.as_mut().ok_or("harness: no db")?;
         let calls_before = self.backend.calls();
+        let pages_before = (before_len / self.cfg.page_size).max(1) as u64;
+        self.backend.lock().call_budget = Some(400 * pages_before + 100_000);
         let r = db.compact();
+        self.backend.lock().call_budget = None;
         let calls = self.backend.calls() - calls_before;
         match r {
             Err(CompactionError::PersistentSavepointExists) if has_p => {
@@ -1545,6 +1616,7 @@ impl Interp {
                 // compaction commits durably: the latest commit point is now durable
                 self.mark(LogOp::Acked(self.cps.len() - 1, true));
                 self.last_commit_durable = true;
+                self.durable_cp = self.cps.len() - 1;
                 let after_len = self.backend.lock().data.len();
                 if after_len > before_len {
                     let free = total_before.saturating_sub(alloc_before);
@@ -1593,6 +1665,7 @@ impl Interp {
                 }
                 self.mark(LogOp::Acked(self.cps.len() - 1, true));
                 self.last_commit_durable = true;
+                self.durable_cp = self.cps.len() - 1;
                 let d = dump::dump(self.db.as_ref().unwrap(), Some(&self.committed.tables))?;
                 if !d.matches(&self.committed) {
                     return Err(format!(
